@@ -344,6 +344,9 @@ func variants(d *LDoc) []*LDoc {
 			if b.WFw {
 				add(func(n *LDoc) { n.Blocks[bi].WFw = false })
 			}
+			if b.WPad != 0 {
+				add(func(n *LDoc) { n.Blocks[bi].WPad = 0 })
+			}
 			if b.WBgc {
 				add(func(n *LDoc) { n.Blocks[bi].WBgc = false })
 			}
@@ -615,6 +618,21 @@ func layoutSpace(tier string, seed int64) []*LDoc {
 			return &LDoc{Blocks: []LBlock{b}}
 		}
 		docs = append(docs, mk())
+		// wrappers whose padding (and border) leave no room at all for their children, with one, two and three rows: the Outlook
+		// structure must balance whatever widths come out
+		for _, wp := range []int{1, 2, 3} {
+			for _, idx := range [][]int{{0}, {0, 0}, {0, 1}, {1, 0, 0}} {
+				ok := true
+				for _, i := range idx {
+					ok = ok && i < len(wa)
+				}
+				if ok {
+					d := mk(idx...)
+					d.Blocks[0].WPad = wp
+					docs = append(docs, d)
+				}
+			}
+		}
 		for i := range wa {
 			docs = append(docs, mk(i))
 			for j := range wa {
